@@ -578,7 +578,7 @@ func main() {
 		run  func() (string, any, bool, []string)
 	}
 	var jobs []job
-	nSeq, nRe, nConc := f.Count(260), f.Count(8), f.Count(130)
+	nSeq, nRe, nConc := f.Count(220), f.Count(8), f.Count(100)
 	for i := 0; i < nSeq; i++ {
 		r := rng.Fork()
 		jobs = append(jobs, job{"seq", func() (string, any, bool, []string) {
